@@ -28,7 +28,8 @@ META = {
                   "semantics (each path re-run concretely).",
     "explanation": "symbolic execution of hid.tridonic._bus_watch/_handle_read/_callback._invoke and of the "
                    "serial receivers' _process_* with symbolic report fields under a virtual clock",
-    "bounds": ["serial: one observed frame from an arbitrary remembered device type (induction), 0..3 queues",
+    "bounds": ["serial history with the consumer subscribing before frame 0..3",
+               "serial: one observed frame from an arbitrary remembered device type (induction), 0..3 queues",
                "subscriber registries (serial queues, hid callbacks): every history of 4 (thorough 6) join/leave "
                "operations, solver-chosen",
                "serial histories with the real decoder: ENABLE DEVICE TYPE a, extended frame X, ENABLE DEVICE "
